@@ -77,7 +77,7 @@ fn evaluate(rep: &mut Report, p: &Prog, watchdog: Duration, verbose: bool) {
         "{}/{}/c:{}@{}/b:{}",
         p.driver_name(),
         p.sig_static(),
-        p.close_name(),
+        ["conn-close", "endpoint-close", "drop"][out.close_kind.min(2) as usize],
         p.close.at,
         blocked
     );
@@ -100,6 +100,9 @@ fn evaluate(rep: &mut Report, p: &Prog, watchdog: Duration, verbose: bool) {
     for r in &out.inconclusive {
         rep.inconclusive(r);
     }
+    if !out.inconclusive.is_empty() && std::env::var_os("C16_DUMP_INCON").is_some() {
+        eprintln!("INCON {:?} {}", out.inconclusive, json!({"program": p.to_json()}));
+    }
     for n in &out.notes {
         rep.note(n.clone());
     }
@@ -113,9 +116,9 @@ fn evaluate(rep: &mut Report, p: &Prog, watchdog: Duration, verbose: bool) {
         rep.count(if p.mode == 0 { "programs-transfer" } else { "programs-close" }, 1);
         rep.floor("saw-iour", p.driver == 0);
         rep.floor("saw-poll", p.driver == 1);
-        rep.floor("saw-conn-close", p.close.kind == 0);
-        rep.floor("saw-endpoint-close", p.close.kind == 1);
-        rep.floor("saw-drop-close", p.close.kind == 2 && out.counters.get("drop-fell-back-to-close").is_none());
+        rep.floor("saw-conn-close", out.close_kind == 0);
+        rep.floor("saw-endpoint-close", out.close_kind == 1);
+        rep.floor("saw-drop-close", out.close_kind == 2);
         let has = |k: &str| out.blocked.iter().any(|b| b.ends_with(k));
         for k in [
             "read", "write", "stopped", "received_reset", "open_uni_wait", "open_bi_wait", "accept_uni",
@@ -141,7 +144,7 @@ pub fn main(args: &Args) {
     let mut rep = Report::from_args("C16", &leg, args);
     rep.set_exhaustive(false);
     let verbose = args.flag("verbose");
-    let watchdog = Duration::from_millis(args.u64("watchdog-ms", if args.thorough() { 60_000 } else { 30_000 }));
+    let watchdog = Duration::from_millis(args.u64("watchdog-ms", if args.thorough() { 45_000 } else { 25_000 }));
     run::install_panic_log();
 
     if let Some(path) = args.get("replay") {
@@ -176,6 +179,9 @@ pub fn main(args: &Args) {
         }
         if args.flag("dump") {
             eprintln!("{}", p.to_json());
+        }
+        if args.flag("dry") {
+            continue;
         }
         evaluate(&mut rep, &p, watchdog, verbose);
         if args.flag("stop-on-violation") && rep.n_violations() > 0 {
